@@ -267,6 +267,10 @@ pub struct RunRecord {
     pub outcomes: Vec<Outcome>,
     /// internal state after each solve (when `capture_state`)
     pub dumps: Vec<Option<resolvo::verif_hooks::Dump>>,
+    /// invariant violations seen by the online observer while the solves were running (when `capture_state`)
+    pub online_violations: Vec<String>,
+    /// number of intermediate states the online observer looked at
+    pub online_states: u64,
     pub log: Vec<Ev>,
     pub stats: SimStats,
     pub trace: Vec<TraceStep>,
@@ -562,9 +566,42 @@ pub fn make_core(sc: &Scenario) -> Rc<SimCore> {
     })
 }
 
+thread_local! {
+    static ONLINE: RefCell<(Vec<String>, u64, u64)> = const { RefCell::new((Vec::new(), 0, 0)) };
+}
+
+/// Online observer (guarded verif-hooks seam): looks at the solver state whenever unit propagation reached a
+/// fixpoint and checks that every propagated assignment on the trail is justified at that moment. On large
+/// universes only every 48th state is copied (every 4th on small ones).
+fn install_observer(stride: u64) {
+    ONLINE.with(|o| *o.borrow_mut() = (Vec::new(), 0, 0));
+    resolvo::verif_hooks::set_observer(Some(Box::new(move |dump| {
+        match dump {
+            None => ONLINE.with(|o| {
+                let mut o = o.borrow_mut();
+                o.1 += 1;
+                o.0.is_empty() && (o.1 % stride == 0)
+            }),
+            Some(d) => {
+                ONLINE.with(|o| {
+                    let mut o = o.borrow_mut();
+                    o.2 += 1;
+                    if let Some(e) = crate::internal::trail_justified(d) {
+                        o.0.push(e);
+                    }
+                });
+                false
+            }
+        }
+    })));
+}
+
 /// Execute a scenario with one hash salt.
 pub fn execute_with_salt(sc: &Scenario, salt: u64) -> RunRecord {
     set_salt(salt);
+    if sc.capture_state {
+        install_observer(if sc.world.n_solvables() <= 64 { 4 } else { 48 });
+    }
     let core = make_core(sc);
     let provider = SimProvider::new(core.clone());
     let mut outcomes = Vec::new();
@@ -588,9 +625,20 @@ pub fn execute_with_salt(sc: &Scenario, salt: u64) -> RunRecord {
     let stats = core.stats.borrow().clone();
     let trace = core.trace_out.borrow().clone();
     let cache_mismatch = core.cache_mismatch.borrow().clone();
+    let (online_violations, online_states) = if sc.capture_state {
+        resolvo::verif_hooks::set_observer(None);
+        ONLINE.with(|o| {
+            let o = o.borrow();
+            (o.0.clone(), o.2)
+        })
+    } else {
+        (Vec::new(), 0)
+    };
     RunRecord {
         outcomes,
         dumps,
+        online_violations,
+        online_states,
         log,
         stats,
         trace,
